@@ -104,6 +104,9 @@ SUGAR = [
     ("{S} ({A} < {B})", "{S} ?(let Ta := {A}; let Tb := {B}; Ta Tb ?lt)", True),
     ('{S} {A} "x%sy"', '{S} {A} "x%( %)y"', True),
     ('{S} {N} "%d"', '{S} {N} "%( value %)"', True),
+    # layout inside an embedded program: a newline alone separates tokens there as anywhere
+    ('{S} "%( {N} 1 add %)"', '{S} "%(\n{N}\n1\nadd\n%)"', True),
+    ('{S} "a%( {A} %)b%( {N} 2 mul %)"', '{S} "a%(\t{A}\n%)b%( {N}\n2\nmul %)"', True),
     ('{S} {N} "%x"', '{S} {N} "%( value hex %)"', True),
     ('{S} {N} {N} "%o|%b"', '{S} {N} {N} "%( value oct %)|%( value bin %)"', True),
     ('{S} "ab"', '{S} "a"\\ "b"', True),
